@@ -265,7 +265,7 @@ func runC16(c *Ctx) {
 		c16Run(c, wrap.Case)
 		return
 	}
-	files, _ := filepathGlob("/verif/harness/corpus/C16/*.json")
+	files, _ := filepathGlob(verifRoot + "/harness/corpus/C16/*.json")
 	for _, f := range files {
 		var wrap struct{ Case c16Case `json:"case"` }
 		b, err := osReadFile(f)
